@@ -68,3 +68,60 @@ func Sleep(d Duration) {
 	}
 	vrt.Recv(NewTimer(d).C)
 }
+
+// Reset re-arms the timer (as time.Timer.Reset).
+func (t *Timer) Reset(d Duration) bool {
+	active := t.stop()
+	t.stop = vrt.AddTimer(int64(d), func() {
+		vrt.TrySendNoSched(t.C, epoch.Add(time.Duration(vrt.Now())))
+	})
+	return active
+}
+
+// AfterFunc runs f in its own modelled goroutine when the timer fires.
+func AfterFunc(d Duration, f func()) *Timer {
+	t := &Timer{C: vrt.MakeChan[Time](1)}
+	t.stop = vrt.AddTimer(int64(d), func() { vrt.GoNamed("afterfunc", f) })
+	return t
+}
+
+// Ticker replaces time.Ticker: it re-arms itself each time it fires (timers
+// fire only at quiescence, so a ticker never starves the scenario).
+type Ticker struct {
+	C       *vrt.Chan[Time]
+	d       Duration
+	stop    func() bool
+	stopped bool
+}
+
+func (t *Ticker) arm() {
+	t.stop = vrt.AddTimer(int64(t.d), func() {
+		if t.stopped {
+			return
+		}
+		vrt.TrySendNoSched(t.C, epoch.Add(time.Duration(vrt.Now())))
+		t.arm()
+	})
+}
+
+// NewTicker returns a modelled ticker.
+func NewTicker(d Duration) *Ticker {
+	if d <= 0 {
+		panic("non-positive interval for NewTicker")
+	}
+	t := &Ticker{C: vrt.MakeChan[Time](1), d: d}
+	t.arm()
+	return t
+}
+
+// Stop turns the ticker off.
+func (t *Ticker) Stop() { t.stopped = true; t.stop() }
+
+// Reset changes the period.
+func (t *Ticker) Reset(d Duration) { t.stop(); t.d = d; t.arm() }
+
+// Tick mirrors time.Tick.
+func Tick(d Duration) *vrt.Chan[Time] { return NewTicker(d).C }
+
+// Until mirrors time.Until.
+func Until(t Time) Duration { return t.Sub(Now()) }
